@@ -149,7 +149,7 @@ def run(module, cfg=None, workers=1, timeout=600, env=None, extra=None, name=Non
     m = re.search(r"Invariant (\S+) is violated", out)
     if m:
         r.violated = m.group(1)
-    m2 = re.search(r"Action property (\S+) is violated|Temporal properties were violated|"
+    m2 = re.search(r"Action property (\S+) is violated|Temporal propert(?:y|ies) (\S+ )?w(?:as|ere) violated|"
                    r"The postcondition \S* ?(?:was|is) violated|Deadlock reached", out)
     if m2 and not r.violated:
         r.violated = m2.group(1) or m2.group(0)
